@@ -2,7 +2,7 @@
    run h      : the model of RegisteredDecoys after the history h (C08/Model.v)
    ghost h k  : the life of registration k as a function of the history alone
                 (age since the first Track of the current life, used flag)          *)
-From CJ Require Import Common.Base C08.Model C08.Proofs C08.Invariant C08.Sweep C08.History C08.Bounded.
+From CJ Require Import Common.Base C08.Model C08.Proofs C08.Invariant C08.Sweep C08.History C08.Bounded C08.Counters.
 
 (* The table agrees with the per-registration specification after every history. *)
 Theorem C08_refines_spec :
@@ -24,6 +24,18 @@ Theorem C08_sweep_exact_pre :
     exists a, age h k = Some a /\ (a <= ten_min \/ (used h k = true /\ a <= six_h)).
 Proof. exact sweep_exact_pre. Qed.
 Print Assumptions C08_sweep_exact_pre.
+
+(* The boundary instant.  The property text says "younger than"; the code compares with ">":
+   a registration whose age is EXACTLY 10 min (6 h if used) survives the sweep, one nanosecond
+   older and it is removed.  (Checked against the implementation with the fake clock on every run.) *)
+Theorem C08_boundary_instant :
+  forall h k,
+    (age h k = Some ten_min -> tracked (run (h ++ [Sweep])) k = true) /\
+    (age h k = Some six_h -> used h k = true -> tracked (run (h ++ [Sweep])) k = true) /\
+    (forall a, age h k = Some a -> used h k = false -> ten_min < a -> tracked (run (h ++ [Sweep])) k = false) /\
+    (forall a, age h k = Some a -> six_h < a -> tracked (run (h ++ [Sweep])) k = false).
+Proof. exact boundary_instant. Qed.
+Print Assumptions C08_boundary_instant.
 
 (* The code's two-armed expiry test is exactly the negation of that rule. *)
 Theorem C08_expiry_rule :
@@ -113,3 +125,45 @@ Theorem C08_sweep_order_irrelevant :
     panicked (sweep_in order (run h)) = false.
 Proof. exact sweep_order_irrelevant_run. Qed.
 Print Assumptions C08_sweep_order_irrelevant.
+
+(* ---- further observables: validity, regCount, detector notifications ---- *)
+
+(* A lookup returns a registration iff it was validated during its current life
+   (gvalid: a function of the history alone). *)
+Theorem C08_valid_refines_spec :
+  forall h k, valid (run h) k = gvalid h k.
+Proof. exact valid_ghost. Qed.
+Print Assumptions C08_valid_refines_spec.
+
+Theorem C08_matches_refines_spec :
+  forall h k, matches (run h) k = gvalid h k.
+Proof. exact matches_ghost. Qed.
+Print Assumptions C08_matches_refines_spec.
+
+(* regCount of a tracked registration = 1 + the Track/TrackNX operations on it since its life
+   began (gcount: a function of the history alone); 0 when untracked. *)
+Theorem C08_regcount_refines_spec :
+  forall h k, regcount (xrun h) k = gcount h k.
+Proof. exact regcount_ghost. Qed.
+Print Assumptions C08_regcount_refines_spec.
+
+Theorem C08_regcount_positive_iff_alive :
+  forall h k, 0 < gcount h k <-> ghost h k <> None.
+Proof. exact gcount_positive. Qed.
+Print Assumptions C08_regcount_positive_iff_alive.
+
+(* The detector notifications an operation causes are those the history prescribes:
+   New exactly when a not-yet-validated registration is validated, Update exactly when a
+   live registration carries a connection. *)
+Theorem C08_notifications_refine_spec :
+  forall h o, match o with Sweep => True | _ => emits (run h) o = gemits h o end.
+Proof. exact emits_ghost. Qed.
+Print Assumptions C08_notifications_refine_spec.
+
+(* At most one announcement per life: an announced registration is validated, and a
+   validated registration is never announced again (validity ends only with the life). *)
+Theorem C08_announced_once_per_life :
+  forall h o k, (In (EvNew k) (emits (run h) o) -> gvalid (h ++ [o]) k = true) /\
+                (gvalid h k = true -> ~ In (EvNew k) (emits (run h) o)).
+Proof. exact announced_once_per_life. Qed.
+Print Assumptions C08_announced_once_per_life.
